@@ -4,12 +4,13 @@
 package server
 
 // The permission gate. `sysdb` is verified against the body (it names the local `ind`, the index of the database the
-// session selected): the system database is handed out only for methods of the maintenance table. `gate` and `sysgate`
+// session selected; the mode flags are those at the time of the call: on the path without authentication `ind` does not
+// exist and the clause is vacuous): the system database is handed out only for methods of the maintenance table. `gate` and `sysgate`
 // DEFINE the ghost functions database.Ghost_granted / Ghost_isSysDB for the returned handle: the caller holds one of the
 // levels the permission table lists for methodName (or is SysAdmin, which the gate lets through for every method), and
 // the handle is the system database only for a maintenance method. Every RPC handler is verified against the
 // preconditions of the database.DB methods it reaches (pkg/database/zz_verif_contracts.go) under these definitions.
 //@ func (*ImmuServer).getDBFromCtx
-//@   ensures sysdb: r1 == nil && (s.Options.auth || s.multidbmode || s.Options.maintenance) && ind == sysDBIndex ==> auth.IsMaintenanceMethod(methodName)
+//@   ensures sysdb: r1 == nil && (old(s.Options.auth) || old(s.multidbmode) || old(s.Options.maintenance)) && ind == sysDBIndex ==> auth.IsMaintenanceMethod(methodName)
 //@   ensures gate: r1 == nil ==> r0 != nil && (database.Ghost_granted(r0) & ^(auth.Spec_allowed(methodName) | 8)) == 0
 //@   ensures sysgate: r1 == nil ==> (database.Ghost_isSysDB(r0) ==> auth.Spec_maintenance(methodName))
